@@ -136,6 +136,7 @@ def run(report, db, tier):
                      'rebuilt in place and follow run-time extensions')
     check_reinit(report, db, F, recs, ref, R4)
     check_no_rebinding(report, db, R4)
+    check_no_outside_mutation(report, db, R4)
     check_no_memo(report, db, R4)
 
     R1 = report.rule('R08.1', 'the comparison predicates are the strict / '
@@ -296,6 +297,90 @@ def check_no_rebinding(report, db, R4):
                         report.violation(
                             R4, 'attrstore:%s' % t.attr, mod.path, n, None,
                             'version table replaced by attribute store')
+
+
+def check_no_outside_mutation(report, db, R4):
+    """Only initglobals changes the derived tables.  Elsewhere a table may be
+    read, copied, iterated -- but neither changed in place directly nor
+    through a local name bound to the very object (`x = TABLE; x += [...]`
+    appends to the shared list)."""
+    MUT = ('append', 'add', 'update', 'extend', 'insert', 'pop', 'remove',
+           'clear', 'setdefault', 'popitem', 'sort', 'reverse', 'discard')
+    names = set(TABLES + ['KNOWN_MINECRAFT_VERSION_RECORDS'])
+    n = 0
+    for fi in db.funcs:
+        if isinstance(fi.node, ast.Lambda):
+            continue
+        if fi.module.name == 'minecraft':
+            continue        # the tables' own module (initglobals and what
+            #                 it is split into); R08.2/R08.4 fold that
+        local = set(a.arg for a in ast.walk(fi.node.args)
+                    if isinstance(a, ast.arg))
+        # is the global name visible here (imported / module level)?
+        def is_table(e):
+            if isinstance(e, ast.Name) and e.id in names and \
+                    e.id not in local:
+                try:
+                    ent = db.resolve_dotted(fi.module, e)
+                except AnalysisError:
+                    return False
+                return ent is not None
+            if isinstance(e, ast.Attribute) and e.attr in names:
+                return True
+            return False
+        # local names that may hold the table object itself
+        alias = set()
+        changed = True
+        while changed:
+            changed = False
+            for x in ast.walk(fi.node):
+                if not isinstance(x, ast.Assign):
+                    continue
+                vals = [x.value]
+                if isinstance(x.value, ast.IfExp):
+                    vals = [x.value.body, x.value.orelse]
+                if isinstance(x.value, ast.BoolOp):
+                    vals = list(x.value.values)
+                for v in vals:
+                    if is_table(v) or (isinstance(v, ast.Name)
+                                       and v.id in alias):
+                        for t in x.targets:
+                            if isinstance(t, ast.Name) and \
+                                    t.id not in alias:
+                                alias.add(t.id)
+                                changed = True
+
+        def shared(e):
+            return is_table(e) or (isinstance(e, ast.Name) and e.id in alias)
+        for x in ast.walk(fi.node):
+            hit = None
+            if isinstance(x, ast.AugAssign) and shared(x.target):
+                hit = (x.target, 'is changed in place by `%s`'
+                       % ast.unparse(x)[:50])
+            elif isinstance(x, ast.Call) and isinstance(
+                    x.func, ast.Attribute) and x.func.attr in MUT and \
+                    shared(x.func.value):
+                hit = (x.func.value, 'is changed by .%s()' % x.func.attr)
+            elif isinstance(x, ast.Subscript) and isinstance(
+                    x.ctx, (ast.Store, ast.Del)) and shared(x.value):
+                hit = (x.value, 'has an entry stored / deleted')
+            elif isinstance(x, ast.Delete) and any(shared(t)
+                                                   for t in x.targets):
+                hit = (x.targets[0], 'is deleted')
+            if hit:
+                n += 1
+                what = ast.unparse(hit[0])
+                via = '' if is_table(hit[0]) else \
+                    ' (a local name bound to a version table)'
+                report.violation(
+                    R4, 'table-mutated:%s:%s' % (fi.qualname, what),
+                    fi.path, x, fi.qualname, '%s%s %s outside initglobals: '
+                    'the derived tables stop being the projection of the '
+                    'records, and the next initglobals() changes them again'
+                    % (what, via, hit[1]))
+    if not n:
+        report.ok(R4, 'no function but initglobals changes a version table, '
+                  'directly or through a local alias')
 
 
 def check_no_memo(report, db, R4):
